@@ -136,6 +136,17 @@ def recorded_amount_c04(col, gcode, paths, I):
     col.rule('C07.R1', 'C07: every synthesised command is one G/M code followed by distinct single-letter words', floor=4)
     col.rule('C07.R2', 'C07: every numeric word (the E of G92 E / G1 E in particular) is rendered by an exponent-free formatter', floor=8)
     rules_c07.path_rules(col, gcode, paths, I, own=False)
+    # what reaches the printer while an episode is open is decided by C01: only the enter script and genuine retractions, never
+    # the incoming command (an E word replayed inside a region pushes the whole backlog of suppressed extrusion)
+    from . import rules_c01
+    for rid, desc, floor in (('C01.R1', 'a forwarded move requires a failed region test and a state that is not excluding', 100),
+                             ('C01.R2', 'while an episode is open only the enter script and genuine retractions are emitted', 50),
+                             ('C01.R5', 'an episode is opened only when some point tested inside a region', 10),
+                             ('C01.R6', 'tracked X/Y/Z/E follow the command whatever the region tests said', 100),
+                             ('C01.R7', 'forwarded output is built per command', 100),
+                             ('C03.R8', 'the travel generated on a leaving move goes to the tracked destination', 20)):
+        col.rule(rid, 'C01: ' + desc, floor=floor)
+    rules_c01.path_rules(col, gcode, paths, I, own=False)
 
 
 def run(ctx, tier):
@@ -144,6 +155,10 @@ def run(ctx, tier):
     addcommands_rule(ctx)
     from .handlers import run_path_rules
     run_path_rules(ctx, __name__, 'recorded_amount_c04', ['G0', 'G1'], unroll=1)
+    from .rules_c19 import tokeniser_premise
+    tokeniser_premise(ctx)
+    from .rules_c08 import frame_premise
+    frame_premise(ctx)
     ctx.assume('absolute extrusion mode, matched equal-length E-only or firmware cycles (the property quantifier); tracked E '
                'follows the file (C01.R6 / C19.R4); scripts and deferred codes do not touch E')
     ctx.assume('a printing move that leaves a region is re-positioned without extruding (documented behaviour)')
